@@ -308,6 +308,22 @@ func (st *State) callUnknown(c *ssa.CallCommon, fnv Val, args []Val, site ssa.In
 	k := "G:$usercalls"
 	vc.setKeySort(k, SInt)
 	st.set(k, tAdd(st.get(k), tInt(1)))
+	// panic outcome: explored when a frame on the stack can recover (or the contract wants panics contained)
+	canRecover := false
+	for fr := st.fr; fr != nil; fr = fr.parent {
+		if fr.fn.Recover != nil && frameRecovers(fr.fn) {
+			canRecover = true
+		}
+	}
+	if canRecover {
+		ps := st.fork()
+		ps.panicking = true
+		ps.ghostLocals["$panicked"] = TV{tTrue, types.Typ[types.Bool]}
+		ps.unwind()
+	}
+	if _, ok := st.ghostLocals["$panicked"]; !ok {
+		st.ghostLocals["$panicked"] = TV{tFalse, types.Typ[types.Bool]}
+	}
 	sig := c.Signature()
 	res := st.freshResults(sig.Results(), "ucall")
 	st.resultsAllocated(res, sig.Results())
@@ -659,7 +675,6 @@ func (st *State) builtin(f *ssa.Builtin, c *ssa.CallCommon, args []Val, site ssa
 		st.oblige("chan", lbl+":not-nil", tNot(tEq(ch, tInt(0))), "close of non-nil channel")
 		st.oblige("chan", lbl+":not-closed", st.chanGet(ch, "open"), "close of a channel that is still open")
 		st.chanSet(ch, "open", tFalse)
-		st.ghostCount("closes", ch)
 		return TupleV{}
 	case "recover":
 		// modelled only inside utils.WithSafe's deferred closure via its contract
@@ -751,13 +766,11 @@ func (vc *VC) instrMod(in ssa.Instruction, li *loopInfo, depth int) {
 	case *ssa.Defer:
 		vc.callMod(x.Common(), li, depth)
 	case *ssa.Go:
-		li.mod["G:$spawned."+calleeName(x.Common())] = true
+		li.mod["G:$spawned"] = true
 	case *ssa.Send, *ssa.Select:
-		li.mod["CH:len"] = true
-		li.mod["G:$signalled"] = true
-		li.mod["G:$sends"] = true
+		li.mod["CH:sent"], li.mod["CH:rcvd"], li.mod["CHV:<"] = true, true, true
 	case *ssa.MakeChan:
-		li.mod["CH:len"], li.mod["CH:open"], li.mod["CH:cap"], li.mod[allocKey] = true, true, true, true
+		li.mod["CH:sent"], li.mod["CH:rcvd"], li.mod["CH:open"], li.mod["CH:cap"], li.mod[allocKey] = true, true, true, true, true
 	case *ssa.Alloc:
 		if x.Heap {
 			li.mod[allocKey] = true
@@ -769,7 +782,7 @@ func (vc *VC) instrMod(in ssa.Instruction, li *loopInfo, depth int) {
 		vc.typeMod(PtrV{Kind: "elem", Root: typeRepr(el)}, el, "", li)
 	case *ssa.UnOp:
 		if x.Op.String() == "<-" {
-			li.mod["CH:len"] = true
+			li.mod["CH:sent"], li.mod["CH:rcvd"], li.mod["CH:open"], li.mod["CHV:<"] = true, true, true, true
 		}
 	}
 }
@@ -864,7 +877,6 @@ func (vc *VC) callMod(c *ssa.CallCommon, li *loopInfo, depth int) {
 		}
 		if f.Name() == "close" {
 			li.mod["CH:open"] = true
-			li.mod["G:$closes"] = true
 		}
 		return
 	case *ssa.Function:
@@ -919,4 +931,20 @@ func (vc *VC) contractMod(fc *FuncContract, origin *ssa.Function, c *ssa.CallCom
 			}
 		}
 	}
+}
+
+// frameRecovers: the function defers a closure that calls recover().
+func frameRecovers(f *ssa.Function) bool {
+	for _, a := range f.AnonFuncs {
+		for _, b := range a.Blocks {
+			for _, in := range b.Instrs {
+				if c, ok := in.(*ssa.Call); ok {
+					if bi, ok := c.Call.Value.(*ssa.Builtin); ok && bi.Name() == "recover" {
+						return true
+					}
+				}
+			}
+		}
+	}
+	return false
 }
